@@ -52,3 +52,23 @@ Example C09_nocache_nonvacuous :
   fst (fst (hstep h (HDecrypt 0 0 [] []))) = ODec (Some 7%nat) /\
   List.length (w_secrets (h_world (snd (hstep h (HDecrypt 0 0 [] []))))) = (List.length (w_secrets (h_world h)) + 2)%nat.
 Proof. exact nocache_nonvacuous. Qed.
+
+(* the same for Encrypt, which creates and stores keys: every secret the call allocated is closed when it returns - except at most
+   ONE, the system key that known finding C09-J leaks on a parent mismatch in the duplicate fallback; nothing older is touched *)
+Theorem C09_nocache_encrypt_releases_all_but_one : forall svc prod t0 ops s payload faults,
+  Forall (benign svc prod) ops ->
+  let h := snd (hrun (hinit t0) ops) in
+  (forall x fa, nth_error (w_sessions (h_world h)) s = Some x -> nth_error (w_factories (h_world h)) (ss_factory x) = Some fa ->
+                fa_sk fa = None /\ ss_ik x = None) ->
+  let w := h_world h in
+  let w' := h_world (snd (hstep h (HEncrypt s payload faults))) in
+  (forall sid, (sid < List.length (w_secrets w))%nat -> nth_error (w_secrets w') sid = nth_error (w_secrets w) sid) /\
+  (exists leak : list nat, (List.length leak <= 1)%nat /\
+     forall sid sc, (List.length (w_secrets w) <= sid)%nat -> nth_error (w_secrets w') sid = Some sc -> s_closed sc = true \/ In sid leak) /\
+  (forall k, (k < List.length (w_kobjs w))%nat -> nth_error (w_kobjs w') k = nth_error (w_kobjs w) k).
+Proof. exact nocache_encrypt_releases_all_but_one. Qed.
+Print Assumptions C09_nocache_encrypt_releases_all_but_one.
+
+Example C09_nocache_encrypt_leaves_nothing :
+  live_secrets (h_world (snd (hrun (hinit Rotation.t0) (nocache_ops ++ [HEncrypt 0 8 []])))) = [].
+Proof. exact nocache_encrypt_leaves_nothing. Qed.
